@@ -2,6 +2,7 @@ package compaction
 
 import (
 	"fmt"
+	"github.com/KevoDB/kevo/pkg/verifhook"
 	"os"
 	"sync"
 )
@@ -78,6 +79,7 @@ func (f *DefaultFileTracker) CleanupObsoleteFiles() error {
 			continue
 		}
 
+		verifhook.Point("compaction.cleanup.before_unlink")
 		// Try to delete the file
 		if err := os.Remove(path); err != nil {
 			if !os.IsNotExist(err) {
